@@ -757,21 +757,89 @@ theorem cbcDecrypt_append {β : Type} (xor : β → β → β) (D : β → β) :
     rw [cbcDecrypt_append xor D a b]
     cases a <;> simp [List.getLastD]
 
-theorem cbcEncryptCalls_eq {β : Type} (xor : β → β → β) (E : β → β) :
-    ∀ (pss : List (List β)) (s : CbcState β),
-      cbcEncryptCalls xor E s pss = cbcEncrypt xor E s.ivEnc pss.flatten
-  | [], s => rfl
-  | ps :: rest, s => by
-    simp only [cbcEncryptCalls, cbcEncryptCall, List.flatten_cons]
-    rw [cbcEncryptCalls_eq xor E rest, cbcEncrypt_append]
+theorem getLastD_append {α : Type} (a b : List α) (d : α) : (a ++ b).getLastD d = b.getLastD (a.getLastD d) := by
+  cases b with
+  | nil => simp
+  | cons x b => simp [List.getLastD_eq_getLast?, List.getLast?_append]
 
-theorem cbcDecryptCalls_eq {β : Type} (xor : β → β → β) (D : β → β) :
-    ∀ (css : List (List β)) (s : CbcState β),
-      cbcDecryptCalls xor D s css = cbcDecrypt xor D s.ivDec css.flatten
-  | [], s => rfl
-  | cs :: rest, s => by
-    simp only [cbcDecryptCalls, cbcDecryptCall, List.flatten_cons]
-    rw [cbcDecryptCalls_eq xor D rest, cbcDecrypt_append]
+theorem cbcEncrypt_append' {β : Type} (xor : β → β → β) (E : β → β) (a b : List β) (iv : β) :
+    cbcEncrypt xor E iv a ++ cbcEncrypt xor E ((cbcEncrypt xor E iv a).getLastD iv) b = cbcEncrypt xor E iv (a ++ b) :=
+  (cbcEncrypt_append xor E a b iv).symm
+
+theorem cbcEncrypt_last_append {β : Type} (xor : β → β → β) (E : β → β) (a b : List β) (iv : β) :
+    (cbcEncrypt xor E ((cbcEncrypt xor E iv a).getLastD iv) b).getLastD ((cbcEncrypt xor E iv a).getLastD iv) =
+      (cbcEncrypt xor E iv (a ++ b)).getLastD iv := by
+  rw [cbcEncrypt_append, getLastD_append]
+
+/-- with the translated slot assignment, `encrypt` chains on `iv_enc_` and leaves `iv_dec_` alone -/
+theorem cbcEncryptCall_eq {β : Type} {X : CbcExt β} {xor : β → β → β} {E D : β → β} (hX : X.Standard xor E D)
+    (s : CbcState β) (ps : List β) :
+    cbcEncryptCall X s ps =
+      (cbcEncrypt xor E s.ivEnc ps, ⟨(cbcEncrypt xor E s.ivEnc ps).getLastD s.ivEnc, s.ivDec⟩) := by
+  have h0 : Gen.cbcEncIvec = 0 := rfl
+  have h1 : Gen.cbcEncDir = true := rfl
+  simp only [cbcEncryptCall, h0, h1, CbcState.get, CbcState.put, if_true, (hX _ _).1]
+
+/-- `decrypt` chains on `iv_dec_` and leaves `iv_enc_` alone -/
+theorem cbcDecryptCall_eq {β : Type} {X : CbcExt β} {xor : β → β → β} {E D : β → β} (hX : X.Standard xor E D)
+    (s : CbcState β) (cs : List β) :
+    cbcDecryptCall X s cs = (cbcDecrypt xor D s.ivDec cs, ⟨s.ivEnc, cs.getLastD s.ivDec⟩) := by
+  have h0 : Gen.cbcDecIvec = 1 := rfl
+  have h1 : Gen.cbcDecDir = false := rfl
+  simp only [cbcDecryptCall, h0, h1, CbcState.get, CbcState.put, (hX _ _).2]
+  simp
+
+theorem cbcSetIv_eq {β : Type} (s : CbcState β) (iv : β) : cbcSetIv s iv = ⟨iv, iv⟩ := by
+  have h : Gen.cbcSetIvTargets = [0, 1] := rfl
+  simp [cbcSetIv, h, CbcState.put]
+
+/-- any interleaving of calls: each direction sees one continuous CBC stream -/
+theorem cbcRun_spec {β : Type} {X : CbcExt β} {xor : β → β → β} {E D : β → β} (hX : X.Standard xor E D) :
+    ∀ (ops : List (CbcOp β)) (s : CbcState β),
+      cbcRun X s ops =
+        (cbcEncrypt xor E s.ivEnc (cbcInputsOf true ops), cbcDecrypt xor D s.ivDec (cbcInputsOf false ops),
+         ⟨(cbcEncrypt xor E s.ivEnc (cbcInputsOf true ops)).getLastD s.ivEnc, (cbcInputsOf false ops).getLastD s.ivDec⟩)
+  | [], s => by simp [cbcRun, cbcInputsOf, cbcEncrypt, cbcDecrypt]
+  | .enc ps :: rest, s => by
+    have ih := cbcRun_spec hX rest ⟨(cbcEncrypt xor E s.ivEnc ps).getLastD s.ivEnc, s.ivDec⟩
+    have e1 : cbcInputsOf true (CbcOp.enc ps :: rest) = ps ++ cbcInputsOf true rest := by
+      simp [cbcInputsOf, CbcOp.isEnc, CbcOp.data]
+    have e2 : cbcInputsOf false (CbcOp.enc ps :: rest) = cbcInputsOf false rest := by
+      simp [cbcInputsOf, CbcOp.isEnc]
+    simp only [cbcRun, cbcEncryptCall_eq hX, ih, e1, e2, cbcEncrypt_append', cbcEncrypt_last_append]
+  | .dec cs :: rest, s => by
+    have ih := cbcRun_spec hX rest ⟨s.ivEnc, cs.getLastD s.ivDec⟩
+    have e1 : cbcInputsOf false (CbcOp.dec cs :: rest) = cs ++ cbcInputsOf false rest := by
+      simp [cbcInputsOf, CbcOp.isEnc, CbcOp.data]
+    have e2 : cbcInputsOf true (CbcOp.dec cs :: rest) = cbcInputsOf true rest := by
+      simp [cbcInputsOf, CbcOp.isEnc]
+    simp only [cbcRun, cbcDecryptCall_eq hX, ih, e1, e2, cbcDecrypt_append, getLastD_append]
+
+theorem cbcInputsOf_enc_cons {β : Type} (ps : List β) (rest : List (CbcOp β)) :
+    cbcInputsOf true (CbcOp.enc ps :: rest) = ps ++ cbcInputsOf true rest ∧
+    cbcInputsOf false (CbcOp.enc ps :: rest) = cbcInputsOf false rest := by
+  constructor <;> simp [cbcInputsOf, CbcOp.isEnc, CbcOp.data]
+
+theorem cbcInputsOf_dec_cons {β : Type} (cs : List β) (rest : List (CbcOp β)) :
+    cbcInputsOf false (CbcOp.dec cs :: rest) = cs ++ cbcInputsOf false rest ∧
+    cbcInputsOf true (CbcOp.dec cs :: rest) = cbcInputsOf true rest := by
+  constructor <;> simp [cbcInputsOf, CbcOp.isEnc, CbcOp.data]
+
+theorem cbcInputsOf_map_enc {β : Type} : ∀ (pss : List (List β)),
+    cbcInputsOf true (pss.map CbcOp.enc) = pss.flatten ∧ cbcInputsOf false (pss.map CbcOp.enc) = []
+  | [] => by simp [cbcInputsOf]
+  | p :: pss => by
+    obtain ⟨a, b⟩ := cbcInputsOf_map_enc pss
+    rw [List.map_cons, (cbcInputsOf_enc_cons p _).1, (cbcInputsOf_enc_cons p _).2, a, b]
+    simp
+
+theorem cbcInputsOf_map_dec {β : Type} : ∀ (css : List (List β)),
+    cbcInputsOf false (css.map CbcOp.dec) = css.flatten ∧ cbcInputsOf true (css.map CbcOp.dec) = []
+  | [] => by simp [cbcInputsOf]
+  | c :: css => by
+    obtain ⟨a, b⟩ := cbcInputsOf_map_dec css
+    rw [List.map_cons, (cbcInputsOf_dec_cons c _).1, (cbcInputsOf_dec_cons c _).2, a, b]
+    simp
 
 theorem xorBytes_length (a b : Bytes) (h : a.length = b.length) : (xorBytes a b).length = a.length := by
   simp [xorBytes, h]
@@ -835,5 +903,73 @@ theorem hexPairs_spec : ∀ s : Bytes, s.length % 2 = 0 →
         · intro hall
           have hrest : (rest.all fun c => Gen.hexCharOk c.toNat) = false := by simpa using hall
           simp [fromHex, e1, e2, ih2 hrest]
+
+/-! ## `key::read_from_file` -/
+
+theorem keyFileWs_eq : ∀ c : UInt8, Gen.keyFileWs c.toNat = isWs c := by
+  apply Cppcms.forall_uint8
+  decide +kernel
+
+theorem rstrip_append_ws : ∀ (s : Bytes), ∃ ws : Bytes, s = rstrip s ++ ws ∧ ws.all isWs = true
+  | [] => ⟨[], rfl, rfl⟩
+  | c :: rest => by
+    obtain ⟨ws, h1, h2⟩ := rstrip_append_ws rest
+    unfold rstrip
+    cases hr : rstrip rest with
+    | nil =>
+      rw [hr, List.nil_append] at h1
+      by_cases hc : isWs c = true
+      · exact ⟨c :: rest, by simp [hc], by rw [h1]; simp [hc, h2]⟩
+      · exact ⟨rest, by simp [hc], by rw [h1]; exact h2⟩
+    | cons r0 r =>
+      rw [hr] at h1
+      exact ⟨ws, by rw [h1]; rfl, h2⟩
+
+theorem rstrip_last_not_ws : ∀ (s : Bytes) (x : UInt8), (rstrip s).getLast? = some x → isWs x = false
+  | [], x, h => by simp [rstrip] at h
+  | c :: rest, x, h => by
+    unfold rstrip at h
+    cases hr : rstrip rest with
+    | nil =>
+      rw [hr] at h
+      by_cases hc : isWs c = true
+      · simp [hc] at h
+      · simp only [hc] at h
+        simp at h
+        subst h
+        simpa using hc
+    | cons r0 r =>
+      rw [hr] at h
+      have : (r0 :: r).getLast? = some x := by simpa [List.getLast?_cons_cons] using h
+      rw [← hr] at this
+      exact rstrip_last_not_ws rest x this
+
+theorem dropWhile_ws_reverse (s : Bytes) : (s.reverse.dropWhile isWs).reverse = rstrip s := by
+  induction s with
+  | nil => rfl
+  | cons c rest ih =>
+    rw [List.reverse_cons, List.dropWhile_append]
+    unfold rstrip
+    cases hr : rstrip rest with
+    | nil =>
+      have : rest.reverse.dropWhile isWs = [] := by
+        have := congrArg List.reverse ih
+        rw [hr] at this
+        simpa using this
+      simp only [this, List.isEmpty_nil, if_true]
+      by_cases hc : isWs c = true <;> simp [List.dropWhile, hc]
+    | cons r0 r =>
+      have hne : (rest.reverse.dropWhile isWs).isEmpty = false := by
+        cases h : rest.reverse.dropWhile isWs with
+        | nil => rw [h] at ih; rw [hr] at ih; simp at ih
+        | cons _ _ => rfl
+      simp only [hne, Bool.false_eq_true, if_false, List.reverse_append, List.reverse_cons, List.reverse_nil,
+        List.nil_append, List.singleton_append, ih, hr]
+
+theorem stripTrailingWs_eq (s : Bytes) : stripTrailingWs s = rstrip s := by
+  unfold stripTrailingWs
+  have : (fun c : UInt8 => Gen.keyFileWs c.toNat) = isWs := funext keyFileWs_eq
+  rw [this]
+  exact dropWhile_ws_reverse s
 
 end Cppcms.C16
